@@ -106,6 +106,10 @@ where
     /*@*/ open spec fn replace_is_atomic() -> bool { false }
     /*@*/ open spec fn accepts_replace(&self) -> bool { true }
     /*@*/ #[verifier::prophetic] open spec fn fobs(&self) -> Obs<Self::Error> { self.inner().fobs() }
+    /*@*/ /// configuration: the creator's ghost assignments, the two sequences and the inner hook's configuration
+    /*@*/ closed spec fn config(&self) -> Self {
+    /*@*/     Compact { d: self.d.config(), ops: arbitrary(), old: self.old, new: self.new, hist: Ghost(Seq::empty()), rst0: self.rst0, it0: Ghost(Seq::empty()), ist0: self.ist0 }
+    /*@*/ }
 
     #[inline(always)]
     fn equal(&mut self, old_index: usize, new_index: usize, len: usize) -> (res: Result<(), Self::Error>)
@@ -224,7 +228,7 @@ where
         /*@*/         pre == *vstd::prelude::old(self), pre.inv(), wf(pre.rst()),
         /*@*/         ops_full(self.old, self.new, ops1, bc, false), r0.lvl >= 2 ==> ops_full(self.old, self.new, ops1, bc, true),
         /*@*/         esum(ops1, ops1.len() as int) == pre.rst().eqs - r0.eqs,
-        /*@*/         self.d.fobs() == pre.inner().fobs(),
+        /*@*/         self.d.fobs() == pre.inner().fobs(), self.d.config() == pre.inner().config(),
         /*@*/         !self.d.failed(), self.d.relies() == pre.inner().relies(), self.d.rely_rel() == irel, self.d.accepts_replace() == pre.inner().accepts_replace(),
         /*@*/         self.d.trace() == evs_of(ops1.take(k)),
         /*@*/         self.d.relies() ==> self.d.rely_st() == run_rel(irel, i0, evs_of(ops1.take(k))) && wf(self.d.rely_st())
